@@ -739,9 +739,30 @@ func (e *Env) call(n ECall) *Val {
 		b := a + "b"
 		inj := "(forall ((" + a + " Int) (" + b + " Int)) (! (=> (and " + in(a) + " " + in(b) + " (= (" + pf + " " + a + ") (" + pf + " " + b + "))) (= " + a + " " + b + ")) :pattern ((" + pf + " " + a + ") (" + pf + " " + b + "))))"
 		return boolVal(and("(forall (("+a+" Int)) (! (=> "+in(a)+" (and "+in("("+pf+" "+a+")")+" "+and(eqs...)+")) :pattern ("+pat+")))", inj))
-	case "unchangedHeap":
+	case "unchangedHeap": // unchangedHeap() or unchangedHeap(Type.field, ...): everything but the listed components
 		e.tr.assumingPost = e.assuming
-		r := e.tr.unchangedHeap(e.st, e.old, nil, e.allocOld)
+		var except map[string]bool
+		for _, a := range n.Args {
+			pat := ""
+			switch x := a.(type) {
+			case EStr:
+				pat = x.V
+			case ESel:
+				if id, ok := x.X.(EIdent); ok {
+					pat = id.Name + "." + x.F
+				}
+			}
+			if pat == "" {
+				e.fail("unchangedHeap: argument must be Type.field or a quoted component pattern")
+			}
+			if except == nil {
+				except = map[string]bool{}
+			}
+			for _, c := range e.tr.resolveComps(pat, e.pkg) {
+				except[c.Name] = true
+			}
+		}
+		r := e.tr.unchangedHeap(e.st, e.old, except, e.allocOld)
 		e.tr.assumingPost = false
 		return boolVal(r)
 	case "cnt":
